@@ -292,7 +292,41 @@ def run(ctx) -> RuleResult:
                     result.add(Finding("R-CMP", module, name, inits[0] if inits else func,
                                        f"{name} must start its conjunction from numpy.ones(..., dtype=bool)"))
         if not good:
-            raise AnalysisError(f"{name}: fold with {pred} not recognised")
+            # vectorised fold: the predicate applied once to all columns, reduced over the term axis
+            handled = False
+            for path in ctx.paths(module, func, max_iter=1):
+                for step in path:
+                    for raw in step_exprs(step):
+                        for call in calls_in(raw):
+                            if ctx.dotted(module, call.func) != pred or len(call.args) < 2:
+                                continue
+                            a0, a1 = (strip_tags(step.expand(a)) for a in call.args[:2])
+                            t0, t1 = U(a0), U(a1)
+                            joint = None
+                            for arg in (a0, a1):
+                                for node in ast.walk(arg):
+                                    if isinstance(node, ast.Call) and ctx.dotted(module, node.func) in (
+                                            "numpy.asarray", "numpy.array", "numpy.stack", "numpy.asanyarray") and node.args \
+                                            and isinstance(node.args[0], (ast.List, ast.Tuple)) and len(node.args[0].elts) == 2 \
+                                            and all(".coefficients" in U(e) for e in node.args[0].elts) \
+                                            and U(node.args[0].elts[0]) != U(node.args[0].elts[1]):
+                                        joint = node
+                            if joint is not None and not handled:
+                                handled = True
+                                result.ob(f"{name}: both operands' columns are compared in their own dtypes", False,
+                                          module.loc(step.orig), U(joint)[:80])
+                                result.add(Finding(
+                                    "R-CMP", module, name, call,
+                                    f"{name} packs the coefficient columns of both operands into one array ('{U(joint)[:70]}') before "
+                                    f"comparing them: numpy promotes the pair to a common dtype first (int64 with uint64 gives "
+                                    f"float64), so integers above 2**53 that differ compare equal while <, > and != still tell them "
+                                    f"apart - trichotomy and the complement rule fail",
+                                    derivation=describe_path(path), construct=f"{name}: operands promoted to a common dtype before comparison"))
+                            elif joint is None and ".coefficients" in t0 and ".coefficients" in t1 and not handled:
+                                handled = True
+                                result.ob(f"{name}: vectorised fold over all aligned columns", True, module.loc(step.orig), t0[:60])
+            if not handled:
+                raise AnalysisError(f"{name}: fold with {pred} not recognised")
     # allclose: early False, final True
     module = ctx.repo.module("numpoly.array_function.allclose")
     func = ctx.repo.function(module.name, "allclose")
